@@ -872,7 +872,10 @@ func (s *Server) CancelRequest(id string) {
 	verifPoint("srv.cancel.beforeLock")
 	s.mu.Lock()
 	defer s.mu.Unlock()
-	if s.cancelLocked(id) {
+	// Cancel the context but keep the ID reserved: the handler is still
+	// running, and the reservation is released when its reply is delivered.
+	if cancel, ok := s.used[id]; ok {
+		cancel()
 		s.log("Cancelled request %s by client order", id)
 	}
 }
